@@ -1167,6 +1167,9 @@ func wgRunOne(b *BatchResult, prop string, seed, run uint64, p wgParams) {
 	} else if r.chance(2) {
 		m = genOperatorLattice(r)
 		b.Mix["operator_lattice_models"]++
+	} else if r.chance(1) {
+		m = genEmptyRelationName(r)
+		b.Mix["empty_relation_name_models"]++
 	} else if r.chance(2) {
 		switch r.intn(5) {
 		case 4:
